@@ -74,6 +74,10 @@ def configs(tier):
         add(d=2, q=3, m=1, mode=mode, imputer='default', storage='batch')
         add(d=2, q=2, m=1, mode=mode, imputer='joint', storage='batch', memoise=True)
         add(group='grow', d=2, q=1, mode=mode, imputer='joint', storage='batch')
+        for imp in ('joint', 'product'):
+            add(d=2, q=1, m=2, mode=mode, imputer=imp, storage='batch', context_key=True)
+            add(d=2, q=1, m=2, mode=mode, imputer=imp, storage='batch', row_only_key=True)
+            add(d=3, q=1, m=2, mode=mode, imputer=imp, storage='batch', positional=True, _cost=100)
         add(d=2, q=1, q_call=2, m=2, mode=mode, imputer='joint', storage='batch')
         add(d=2, q=2, q_call=1, m=2, mode=mode, imputer='product', storage='batch')
         add(d=2, q=1, q_call=3, m=2, mode=mode, imputer='joint', storage='batch', _cost=800)
